@@ -13,7 +13,7 @@ V = f"{ROOT}/verif"
 R = f"{ROOT}/repo"
 EXTRA = {"C08-2": ["C11"], "C08-1": ["C12"], "C12-1": ["C08"], "C01-1": ["C03", "C05"], "C01-2": ["C05"], "C03-1": ["C01"],
          "C05-1": ["C01"], "C05-2": ["C01"], "C04-1": ["C18", "C02"], "C04-2": ["C18"], "C02-1": ["C18", "C04"],
-         "C18-1": ["C04"], "C18-2": ["C04"], "C11-1": ["C08"], "C11-2": ["C08"], "C01-3": ["C05", "C02", "C06"], "C07-5": ["C13"], "C10-6": ["C15"], "C02-6": ["C01"], "C03-6": ["C01"], "C05-5": ["C01"]}
+         "C18-1": ["C04"], "C18-2": ["C04"], "C11-1": ["C08"], "C11-2": ["C08"], "C01-3": ["C05", "C02", "C06"], "C07-5": ["C13"], "C10-6": ["C15"], "C02-6": ["C01"], "C03-6": ["C01"], "C05-5": ["C01"], "C02-8": ["C18"], "C06-8": ["C01"], "C04-8": ["C18"]}
 
 
 def setup():
